@@ -1,0 +1,45 @@
+//go:build verif
+
+// Contracts for package coreimport (registration of the core components and the config shorthands), checked by /verif/govc.
+// Comment-only: no code.
+package coreimport
+
+// A list where a schedule is expected is shorthand for the composite schedule of the listed parts, in order;
+// everything else passes through untouched.
+//@ func scheduleSliceToCompositeConfigHook
+//@ props C17 C02
+//@ nilsafe
+//@ requires f != nil && t != nil
+//@ ensures [only-lists] imp(f.Kind() != reflect.Slice, result0 == data && result1 == nil)
+//@ ensures [only-where-a-schedule-is-expected] imp(calls(isPluginOrFactory) == 1 && !result_of(isPluginOrFactory, 0), result0 == data && result1 == nil)
+//@ ensures [composite-of-the-listed-parts] imp(calls(isPluginOrFactory) == 1 && result_of(isPluginOrFactory, 0), result1 == nil && typeis(result0, map[string]interface{}) && result0.(map[string]interface{})["type"] == box("composite") && result0.(map[string]interface{})["nested"] == data)
+//@ ensures [and-nothing-else] imp(calls(isPluginOrFactory) == 1 && result_of(isPluginOrFactory, 0), forall_t(q, string, imp(has(result0.(map[string]interface{}), q), q == "type" || q == "nested")))
+//@ at call isPluginOrFactory assert [schedule-target] arg(expectedPluginType) == scheduleType && arg(actualType) == t
+
+// A string where a data sink is expected: a registered shorthand name (stdout, stderr) or else a file path.
+//@ func sinkStringHook
+//@ props C17 C06
+//@ nilsafe
+//@ requires f != nil && t != nil
+//@ env [mapstructure-passes-the-type-of-the-data] imp(f.Kind() == reflect.String, typeis(data, string))
+//@ env forall(k, 0, len(dataSinkConfigHooks), dataSinkConfigHooks[k] != nil)
+//@ ensures [only-strings] imp(f.Kind() != reflect.String, result0 == data && result1 == nil)
+//@ ensures [only-where-a-sink-is-expected] imp(calls(isPluginOrFactory) == 1 && !result_of(isPluginOrFactory, 0), result0 == data && result1 == nil)
+//@ loop 0 invariant [no-shorthand-matched-so-far] imp(rangeidx > 0, !ok)
+//@ ensures [a-plugin-section] imp(calls(isPluginOrFactory) == 1 && result_of(isPluginOrFactory, 0), result1 == nil && typeis(result0, map[string]interface{}) && has(result0.(map[string]interface{}), "type"))
+//@ ensures [file-path-is-the-fallback] imp(calls(isPluginOrFactory) == 1 && result_of(isPluginOrFactory, 0) && !ok, result0.(map[string]interface{})["type"] == box("file") && result0.(map[string]interface{})["path"] == data)
+//@ ensures [a-matching-shorthand-names-the-plugin] imp(calls(isPluginOrFactory) == 1 && result_of(isPluginOrFactory, 0) && ok, result0.(map[string]interface{})["type"] == box(pluginType))
+//@ at call isPluginOrFactory assert [sink-target] arg(expectedPluginType) == dataSinkType && arg(actualType) == t
+
+//@ func isPluginOrFactory
+//@ props C17
+//@ nilsafe
+//@ requires actualType != nil
+//@ ensures [only-interfaces-and-functions] imp(actualType.Kind() != reflect.Interface && actualType.Kind() != reflect.Func, !result)
+
+// stdout and stderr are the sink shorthands.
+//@ func Import#lit1
+//@ props C17 C06
+//@ modifies nothing
+//@ loop 0 invariant imp(rangeidx >= 1, str != "stdout") && imp(rangeidx >= 2, str != "stderr")
+//@ ensures [stdout-and-stderr] iff(ok, str == "stdout" || str == "stderr") && imp(ok, pluginType == str)
